@@ -117,11 +117,19 @@ Definition csi_p2 (k : key) (pm : list Z) (fin : Z) : key :=
   | [] => k
   end.
 
-Definition decode_csi (params : list (list Z)) (fin : Z) : key :=
+(* the parameter loop of `case ansi.CSI:` *)
+Definition decode_csi_raw (params : list (list Z)) (fin : Z) : key :=
   let params := match params with [] => [[1]] | _ => params end in
   let k0 := match nth_error params 0%nat with Some pm => csi_p0 key0 pm fin | None => key0 end in
   let k1 := match nth_error params 1%nat with Some pm => csi_p1 k0 pm | None => k0 end in
   match nth_error params 2%nat with Some pm => csi_p2 k1 pm fin | None => k1 end.
+
+(* after the loop: `if key.Keycode == 0x08 { key.Keycode = KeyBackspace }` (fix bc2c33a: a Backspace
+   reported in CSI form with the BS code point is the same key as the C0 byte) *)
+Definition bs_norm (k : key) : key :=
+  if k_code k =? 8 then mkKey (k_text k) KeyBackspace (k_shifted k) (k_base k) (k_mods k) (k_event k) else k.
+
+Definition decode_csi (params : list (list Z)) (fin : Z) : key := bs_norm (decode_csi_raw params fin).
 
 Definition decode_c0 (b : Z) : key :=
   if b =? 8 then mkKey [] KeyBackspace 0 0 0 0
@@ -165,6 +173,11 @@ Definition decode_finish (u : uni) (k : key) : key :=
   end.
 
 Definition decode_key (u : uni) (s : kseq) : key := decode_finish u (decode_pre u s).
+
+(* decodeKey as it was before fix bc2c33a (no BS normalisation in the CSI case); used only to show
+   that the own-binding theorem was false of it *)
+Definition decode_key_unfixed (u : uni) (s : kseq) : key :=
+  decode_finish u (match s with SCSI _ params fin => decode_csi_raw params fin | _ => decode_pre u s end).
 
 (* ---------- Key.Matches (modifiers already or-ed into one mask) ---------- *)
 Definition strip2 (m : Z) : Z := Z.ldiff (Z.ldiff m ModCapsLock) ModNumLock.
@@ -341,7 +354,8 @@ Definition shape_params (x : csi_shape) : list (list Z) :=
 Definition shape_seq (x : csi_shape) : kseq := SCSI [] (shape_params x) (sh_fin x).
 
 (* what such a report means: code by the protocol tables, modifiers = m - 1 (absent/empty: none),
-   event = e - 1 (absent/empty: press), text = the code points given; the documented work-around adds
+   event = e - 1 (absent/empty: press), text = the code points given; the code point BS is the
+   Backspace key; the documented work-around adds
    the upper-cased key as text when only Shift is held and no text was sent.  Back-tab (CSI 1 Z /
    CSI Z) is Tab with Shift in addition to the modifiers of the report. *)
 Definition spec_finish (u : uni) (k : key) : key :=
@@ -350,12 +364,15 @@ Definition spec_finish (u : uni) (k : key) : key :=
   then mkKey [rune_fix (u_toupper u (k_code k))] (k_code k) (k_shifted k) (k_base k) (k_mods k) (k_event k)
   else k.
 
+(* the BS code point stands for the Backspace key (as the C0 byte does) *)
+Definition spec_bs (c : Z) : Z := if c =? 8 then KeyBackspace else c.
+
 Definition shape_spec (u : uni) (x : csi_shape) : key :=
   let backtab := (sh_n x =? 1) && (sh_fin x =? 90) in
   let m := if 1 <=? sh_n1 x then Z.max 0 (sh_m x - 1) else 0 in
   spec_finish u
     (mkKey (match sh_tx x with Some tx => map rune_fix tx | None => [] end)
-           (if backtab then KeyTab else spec_code (sh_n x) (sh_fin x))
+           (spec_bs (if backtab then KeyTab else spec_code (sh_n x) (sh_fin x)))
            (if 1 <=? sh_n0 x then sh_s x else 0)
            (if 2 <=? sh_n0 x then sh_b x else 0)
            (if backtab then Z.lor 1 m else m)
@@ -373,10 +390,10 @@ Definition shape_ok (x : csi_shape) : bool :=
   negb ((sh_n x =? 1) && (sh_fin x =? 90) &&
         (if sh_n1 x =? 0 then match sh_tx x with Some _ => true | None => false end else sh_m x =? 0)).
 
-(* xterm modifyOtherKeys: CSI 27 ; m ; k ~  = key k with modifiers m - 1 *)
+(* xterm modifyOtherKeys: CSI 27 ; m ; k ~  = key k (BS = Backspace) with modifiers m - 1 *)
 Definition other_keys_seq (m k : Z) : kseq := SCSI [] [[27]; [m]; [k]] 126.
 Definition other_keys_spec (u : uni) (m k : Z) : key :=
-  spec_finish u (mkKey [] k 0 0 (Z.max 0 (m - 1)) 0).
+  spec_finish u (mkKey [] (spec_bs k) 0 0 (Z.max 0 (m - 1)) 0).
 
 (* legacy bytes *)
 Definition c0_spec (b : Z) : key :=
@@ -845,14 +862,35 @@ Definition desc_obs_ok (c : chord) (s1 s2 : kseq) (strc str1 str2 : list Z) : bo
   (guard_esc_upper_seq c s2 || zlist_eqb str2 strc) &&
   (guard_esc_upper_seq c s1 || guard_esc_upper_seq c s2 || zlist_eqb str1 str2).
 
+(* the chord the user pressed matches its own binding under every encoding: the decoded key matches
+   (code, modifiers) of the chord - by the first rule of Matches, which asks the oracle nothing - and the
+   binding string that is its own String().  The recorded finding plus-binding ("Ctrl++" is not
+   parseable) is excluded by an explicit guard; esc-upper as above; kitty-shift-without-alternate does
+   not concern the chord's own binding (lower-case code with Shift), only the upper-case rune binding. *)
+Definition rule1 (k : key) (r mods : Z) : bool := (k_code k =? r) && (strip2 mods =? strip2 (k_mods k)).
+Definition guard_plus_binding (c : chord) : bool := (ch_code c =? 43) && negb (ch_mods c =? 0).
+Definition own_enc_ok (c : chord) (s : kseq) : bool :=
+  seq_dom_ok s && (guard_esc_upper_seq c s || rule1 (decode_key ascii_uni s) (ch_code c) (ch_mods c)).
+Definition own_chord_ok (c : chord) : bool := forallb (own_enc_ok c) (all_encs c).
+
+(* on one observation: m = k.Matches(code, mods) of the chord, ms = k.MatchString(k.String()) *)
+Definition own_obs_ok (c : chord) (s : kseq) (m ms : bool) : bool :=
+  guard_esc_upper_seq c s || (m && (guard_plus_binding c || ms)).
+
 (* desc stream: (chord, two of its encodings, String() of the chord's own Key value, String() of the
-   two decoded keys) *)
-Definition desc_case := (chord * kseq * kseq * list Z * list Z * list Z)%type.
+   two decoded keys, and for each decoded key k: k.Matches(chord code, chord mods), k.MatchString(k.String())) *)
+Definition desc_case := (chord * kseq * kseq * list Z * list Z * list Z * (bool * bool) * (bool * bool))%type.
 
 Definition c09_desc_mismatches (cases : list desc_case) : list Z :=
   bad_indices (fun cs =>
-    let '(c, s1, s2, strc, str1, str2) := cs in
-    negb (desc_chord c)
+    let '(c, s1, s2, strc, str1, str2, (m1, ms1), (m2, ms2)) := cs in
+    let k1 := decode_key ascii_uni s1 in
+    let k2 := decode_key ascii_uni s2 in
+    negb (Bool.eqb (matches ascii_uni k1 (ch_code c) (ch_mods c)) m1)
+    || negb (Bool.eqb (matches ascii_uni k2 (ch_code c) (ch_mods c)) m2)
+    || negb (Bool.eqb (match_string ascii_uni k1 (key_string ascii_uni k1)) ms1)
+    || negb (Bool.eqb (match_string ascii_uni k2 (key_string ascii_uni k2)) ms2)
+    || negb (desc_chord c)
     || negb (existsb (kseq_eqb s1) (all_encs c)) || negb (existsb (kseq_eqb s2) (all_encs c))
     || negb (seq_dom_ok s1 && seq_dom_ok s2)
     || negb (zlist_eqb (key_string ascii_uni (chord_key c)) strc)
@@ -861,8 +899,9 @@ Definition c09_desc_mismatches (cases : list desc_case) : list Z :=
 
 Definition c09_desc_violations (cases : list desc_case) : list Z :=
   bad_indices (fun cs =>
-    let '(c, s1, s2, strc, str1, str2) := cs in
-    negb (desc_obs_ok c s1 s2 strc str1 str2)) cases.
+    let '(c, s1, s2, strc, str1, str2, (m1, ms1), (m2, ms2)) := cs in
+    negb (desc_obs_ok c s1 s2 strc str1 str2)
+    || negb (own_obs_ok c s1 m1 ms1) || negb (own_obs_ok c s2 m2 ms2)) cases.
 
 (* pipeline stream: bytes were written to the fake console of a real Vaxis; (table, the sequence the
    ANSI parser (property C02) produces for those bytes, inside a bracketed paste or not, the Key read
